@@ -120,6 +120,25 @@ func main() {
 	cmd := os.Args[1]
 	o := parse(os.Args[2:])
 	switch cmd {
+	case "dump-fn":
+		// dump-fn <rel-pkg> <recv|-> <name>
+		p, err := an.Load(parseConfig(o.config, o.repo))
+		if err != nil {
+			fmt.Println(err)
+			os.Exit(1)
+		}
+		for i := 0; i+2 < len(o.args); i += 3 {
+			recv := o.args[i+1]
+			if recv == "-" {
+				recv = ""
+			}
+			fn := p.Func(o.args[i], recv, o.args[i+2])
+			if fn == nil {
+				fmt.Println("not found:", o.args[i:i+3])
+				continue
+			}
+			p.DumpFn(fn)
+		}
 	case "dump-e3":
 		p, err := an.Load(parseConfig(o.config, o.repo))
 		if err != nil {
